@@ -4,17 +4,19 @@ def _entries(nf, nr):
     return [
         _e("c34_mimeblob", "Format::QuoteMimeBlob: " + _D % ("0..%d" % (nf - 1)) + "; also NULL", ("done",)),
         _e("c34_mimeblob_printable", "Format::QuoteMimeBlob: datum = every string of 0..%d printable ASCII bytes 0x20..0x7e (symbolic)" % nf, ("done",)),
-        _e("c34_username", "Format::QuoteUrlEncodeUsername: " + _D % ("0..%d" % nf) + " without a space (candidate finding, see assumptions); also NULL", ("name", "none")),
+        _e("c34_username", "Format::QuoteUrlEncodeUsername: " + _D % ("0..%d" % (nf - 2)) + " without a space (candidate finding, see assumptions); also NULL", ("name", "none")),
         _e("c34_quoted_string", "log_quoted_string into a buffer of exactly 2*len+1 bytes: " + _D % ("0..%d" % nf), ("done",)),
-        _e("c34_url", "rfc1738_escape (URL quoting) and rfc1738_escape_unescaped (default quoting): " + _D % ("0..%d" % nf), ("done",)),
+        _e("c34_url", "rfc1738_escape (URL quoting) and rfc1738_escape_unescaped (default quoting): " + _D % ("0..%d" % (nf - 2)), ("done",)),
         _e("c34_shell", "strwordquote: " + _D % ("0..%d" % nf) + " except strings with TAB/VT/FF and no space (candidate finding, see assumptions)", ("quoted", "bare")),
-        _e("c34_record_default_quotes", "records of logformats 'x %%>h y', 'x \"%%>h\" y', 'x \"%%\">h\" y' built by Format::parse + Format::assemble; request header block " + _D % ("1..%d" % nr), ("default", "quotes")),
-        _e("c34_record_mime", "records of logformats 'x [%%>h] y', 'x [%%[>h] y'; " + _D % ("1..%d" % nr), ("mime",)),
-        _e("c34_record_url_shell", "records of logformats 'x %%#>h y', 'x %%/>h y', 'x \"%%#>h\" y'; " + _D % ("1..%d" % nr) + " (shell: same exclusion as c34_shell)", ("url", "shell")),
+        _e("c34_record_default_quotes", "records of logformats 'x %>h y', 'x \"%>h\" y', 'x \"%\">h\" y' built by Format::parse + Format::assemble; request header block " + _D % ("1..%d (default quoting) / 1..%d (quoted-string)" % (nf - 2, nr)), ("default", "quotes")),
+        _e("c34_record_mime", "records of logformats 'x [%>h] y', 'x [%[>h] y'; " + _D % ("1..%d" % (nr - 1)), ("mime",)),
+        _e("c34_record_url_shell", "records of logformats 'x %#>h y', 'x %/>h y', 'x \"%#>h\" y'; " + _D % ("1..%d (URL) / 1..%d (shell)" % (nf - 2, nr)) + " (shell: same exclusion as c34_shell)", ("url", "shell")),
     ]
 SPEC = dict(
     harness="C34_logquote.cc",
-    units=SBUF + ["src/format/Quoting.cc", "src/format/Token.cc", "src/format/Config.cc", "lib/rfc1738.cc", "src/tools.cc", "src/MemBuf.cc"],
+    units=SBUF + ["src/format/Quoting.cc", "src/format/Token.cc", "src/format/Config.cc", "lib/rfc1738.cc", "src/tools.cc", "src/MemBuf.cc", "compat/xstring.cc",
+           "src/SquidConfig.cc", "src/ip/Address.cc", "src/helper/ChildConfig.cc"],
+    unit_flags={"compat/xstring.cc": ["-Dxstrdup=vf_unused_squid_xstrdup"]},  # xstrdup is an engine model; the real file is linked for xstrncpy
     scope="kernel",
     scope_note="kernel decided: the four log-quoting transformations (log_quoted_string, Format::QuoteMimeBlob / QuoteUrlEncodeUsername, rfc1738_escape, "
                "strwordquote) and the default quoting emit no raw CR/LF and no unescaped delimiter of the field syntax they are used in, and (the four named ones) are "
@@ -24,8 +26,8 @@ SPEC = dict(
                "(fields with quote=0 such as %un, %ru, %mt are written as produced unless the logformat gives a modifier), width/precision truncation, the log module I/O",
     entries=dict(quick=_entries(4, 3), thorough=_entries(5, 4)),
     timeout=dict(quick=300, thorough=1800),
-    stubs=["AccessLogEntry built in zeroed raw memory without its constructor chain; only headers.request is set (the only member %>h reads)",
-           "vsnprintf model for %%%02X and %*.*s", "memAllocBuf rounding as mem/old_api.cc", "debugs() disabled"],
+    stubs=["AccessLogEntry built in zeroed raw memory without its constructor chain; only headers.request is set (the only member %>h reads besides icap.reqMethod == methodNone); the RefCount handed to assemble() is fabricated from the raw pointer (no lock/unlock/destruction)",
+           "vsnprintf model for %%%02X and %*.*s", "memAllocBuf rounding as mem/old_api.cc", "compat/xstring.cc is the real file with its xstrdup renamed away (xstrdup is an engine model)", "debugs() disabled"],
     assumptions=["candidate finding (excluded by vf_assume in c34_username): QuoteUrlEncodeUsername leaves a space raw although the user name is a bare space-delimited field of the built-in log formats",
                  "candidate finding (excluded by vf_assume in c34_shell and the shell layout of c34_record_url_shell): strwordquote quotes a word only when it contains a space and never escapes TAB/VT/FF, so a datum with TAB/VT/FF and no space is emitted as a bare word containing raw whitespace",
                  "shell words are read with POSIX-like rules (a backslash escapes the next character inside and outside double quotes; \\n and \\r denote LF and CR)"],
